@@ -59,6 +59,15 @@ def spellings(a, b, period_ns):
     ty = 'int' if '.' not in ca + cb else 'float'
     out.append(('const-default', '[ba,bb]', u, p0, (('ba', ty, ca), ('bb', ty, cb))))
     out.append(('const-unit', '[ba %s,bb %s]' % (u, u), None, p0, (('ba', ty, ca), ('bb', ty, cb))))
+    # constants with a FRACTIONAL value in a coarser unit than the bound needs, under several default units
+    coarser = {'ms': 's', 'us': 'ms', 'ns': 'us'}.get(u)
+    if coarser:
+        fa, fb = repr(float(Fraction(A, U[coarser]))), repr(float(Fraction(B, U[coarser])))
+        cs = (('ba', 'float', fa), ('bb', 'float', fb))
+        out.append(('const-frac-%s' % coarser, '[ba %s,bb %s]' % (coarser, coarser), None, p0, cs))
+        out.append(('const-frac-%s-default-ns' % coarser, '[ba %s,bb %s]' % (coarser, coarser), 'ns', p0, cs))
+        out.append(('const-frac-%s-default-us' % coarser, '[ba %s,bb %s]' % (coarser, coarser), 'us', p0, cs))
+        out.append(('frac-%s-default-ns' % coarser, '[%s%s,%s%s]' % (fa, coarser, fb, coarser), 'ns', p0, ()))
     return out
 
 
